@@ -31,7 +31,7 @@ BOUNDS = {
 }
 STUBS = ['regex tokeniser bypassed (token list injected; validated concretely)', 'float()/int() of the two numeral '
          'placeholders in parser.py return symbolic reals', 'print()/__str__ of quantities silenced']
-ASSUMPTIONS = ['float := real', 'no division by a zero magnitude, no 0**negative',
+ASSUMPTIONS = ['float := real', 'no division by a zero magnitude, no 0**negative, no negative base to a fractional power',
                'numeral placeholders (symbolic magnitudes) only in base position; exponents from {2,3,-1,0.5,1.5}',
                'reading of a unit name: exact unit, else 1-letter SI prefix + unit, else "da" + unit',
                'unit/prefix tables are finite configuration; each entry compared concretely with an independent SI table']
@@ -274,6 +274,8 @@ class _Ref(object):
 
     @staticmethod
     def pow(a, e):
+        if e not in (2, 3, -1) and a[0] is not None and a[0] < 0:
+            raise ZeroDivisionError('negative base to a fractional power: no defined (real) value')
         if a[0] is None:
             v = None
         elif e == 2:
